@@ -421,4 +421,17 @@ MUTATIONS += [
     dict(id="q-r7e-outputs-loop", quiet=True, file=FUN, old="        output_blocks.extend(layers_to_block[sl] for sl in sc.outputs)", new="        for out_sl in sc.outputs:\n            output_blocks.append(layers_to_block[out_sl])", expect={}),
     dict(id="q-r13e-keyed-dict", quiet=True, file=FUN, old="            obs_ndarray = np.array([obs[var] for var in sorted(sl.scope)])", new="            layer_obs = {var: obs[var] for var in sl.scope}\n            obs_ndarray = np.array([layer_obs[var] for var in sorted(sl.scope)])", expect={}),
     dict(id="q-r11g-backward-equality-mask", quiet=True, file="cirkit/backend/torch/utils.py", old="        return torch.nan_to_num(grad_output / x.conj())", new="        is_zero = x == 0\n        grad = grad_output / torch.where(is_zero, torch.ones_like(x), x).conj()\n        return torch.where(is_zero, torch.zeros_like(grad), grad)", expect={}),
+    # ---- wave-5 seeds as kept
+    dict(id="w5-c04e", patch="seeded/C04e/patch.diff", expect={'C04': ['R14h:']}, allow_others=True),
+    dict(id="w5-c04f", patch="seeded/C04f/patch.diff", expect={'C04': ['R4l:'], 'C14': ['R4l:']}, allow_others=True),
+    dict(id="w5-c06e", patch="seeded/C06e/patch.diff", expect={'C06': ['R13e:']}, allow_others=True),
+    dict(id="w5-c06f", patch="seeded/C06f/patch.diff", expect={'C06': ['R7e:']}, allow_others=True),
+    dict(id="w5-c09c", patch="seeded/C09c/patch.diff", expect={'C09': ['R8:'], 'C04': ['R8:']}, allow_others=True),
+    dict(id="w5-c09d", patch="seeded/C09d/patch.diff", expect={'C09': ['R8:'], 'C03': ['R8:']}, allow_others=True),
+    dict(id="w5-c13c", patch="seeded/C13c/patch.diff", expect={'C13': ['R11g:']}, allow_others=True),
+    dict(id="w5-c13d", patch="seeded/C13d/patch.diff", expect={'C13': ['R11h:']}, allow_others=True),
+    dict(id="w5-c17c", patch="seeded/C17c/patch.diff", expect={'C17': ['R4i:']}, allow_others=True),
+    dict(id="w5-c17d", patch="seeded/C17d/patch.diff", expect={'C17': ['R4i:']}, allow_others=True),
+    dict(id="w5-c18c", patch="seeded/C18c/patch.diff", expect={'C18': ['R6w:']}, allow_others=True),
+    dict(id="w5-c18d", patch="seeded/C18d/patch.diff", expect={'C18': ['R6d:'], 'C10': ['R6d:']}, allow_others=True),
 ]
